@@ -8,8 +8,21 @@ import (
 	"github.com/polynetwork/poly/zzsym"
 )
 
+// zzID: a cross-chain id of length 32, 1, 0, 2 or 33 (the first L of these). Ids of up to 2 bytes are fully
+// symbolic; longer ones have symbolic first, middle and last bytes and fixed filler in between (the store
+// only compares keys bytewise, and fully symbolic 32-byte keys make the ordering queries needlessly hard).
 func zzID(name string, L int) []byte {
-	return zzsym.Bytes(name, []int{32, 1, 0, 2, 33}[zzsym.Choose(name+".len", L)])
+	n := []int{32, 1, 0, 2, 33}[zzsym.Choose(name+".len", L)]
+	if n <= 2 {
+		return zzsym.Bytes(name, n)
+	}
+	b := make([]byte, n)
+	for i := range b {
+		b[i] = 0xab
+	}
+	v := zzsym.Bytes(name, 3)
+	b[0], b[n/2], b[n-1] = v[0], v[1], v[2]
+	return b
 }
 
 // ZZ_C20_DoneTxSet: T marks with symbolic chain ids and ids of several lengths, then one query.
@@ -57,9 +70,9 @@ func ZZ_C20_DoneTxSet() {
 
 func ZZ_C20_DoneTxSet_witness() {
 	db := zzNewCacheDB()
-	id := zzsym.Bytes("id", 32)
+	id := zzID("id", 1)
 	c := zzsym.U64("chain")
 	err := PutDoneTx(zzNative(db, nil), id, c)
 	zzsym.Assert(err == nil, "PutDoneTx succeeds")
-	zzsym.Assert(CheckDoneTx(zzNative(db, nil), zzsym.Bytes("qid", 32), zzsym.U64("qchain")) == nil, "witness: the query may be the marked pair")
+	zzsym.Assert(CheckDoneTx(zzNative(db, nil), zzID("qid", 1), zzsym.U64("qchain")) == nil, "witness: the query may be the marked pair")
 }
